@@ -33,14 +33,41 @@ Theorem C06_reject_macro_redefined : forall f s v,
 Proof. exact reject_macro_redefined. Qed.
 Print Assumptions C06_reject_macro_redefined.
 
+Theorem C06_reject_macro_redefined_as_routine : forall f s v,
+  ctype s = TT_DEFINE -> ctype (next s) = TT_NAME ->
+  let s2 := next (next s) in
+  (has_routine s2 (ctext s2) || is_executable (ctype s2) || is_type s2 TT_BEGIN || is_type s2 TT_WITH)%bool = true ->
+  get_macro s2 (ctext (next s)) = Some v ->
+  p_command (S f) s = PErr (cline s2).
+Proof. exact reject_macro_redefined_as_routine. Qed.
+Print Assumptions C06_reject_macro_redefined_as_routine.
+
+Theorem C06_reject_routine_redefined : forall f s,
+  ctype s = TT_DEFINE -> ctype (next s) = TT_NAME ->
+  let s2 := next (next s) in
+  has_routine s2 (ctext (next s)) = true ->
+  p_command (S f) s = PErr (cline s2).
+Proof. exact reject_routine_redefined. Qed.
+Print Assumptions C06_reject_routine_redefined.
+
 Theorem C06_reject_nested_routine : forall f s,
   ctype s = TT_DEFINE -> ctype (next s) = TT_NAME ->
   let s2 := next (next s) in
   (has_routine s2 (ctext s2) || is_executable (ctype s2) || is_type s2 TT_BEGIN || is_type s2 TT_WITH)%bool = true ->
-  has_routine s2 (ctext (next s)) = false -> p_in_routine s2 = true ->
+  p_in_routine s2 = true ->
   p_command (S f) s = PErr (cline s2).
 Proof. exact reject_nested_routine. Qed.
 Print Assumptions C06_reject_nested_routine.
+
+(* one whole text per documented rule, including a break in a routine that is defined inside a loop *)
+Theorem C06_rule_breakers_rejected :
+  map parse_text
+    ["break"; "repeat 2 begin define f begin break end end"; "define m 5 assign m 6"; "define m 5 define m 6";
+     "define m 5 define m begin hue 1 end"; "define f begin hue 1 end define f 5"; "hue x"; "define f begin define g begin hue 1 end end";
+     "repeat 2 begin hue 1"; "hue {1 + 2"; "hue {(1 + 2}"; "define f with a begin hue a end hue [f 1"; "time at 25:00"; "time at 8:00 or 12:75"]
+  = [Rejected 1; Rejected 1; Rejected 1; Rejected 1; Rejected 1; Rejected 1; Rejected 1; Rejected 1; Rejected 0; Rejected 0; Rejected 1; Rejected 0; Rejected 1; Rejected 1].
+Proof. exact rule_breakers_rejected. Qed.
+Print Assumptions C06_rule_breakers_rejected.
 
 Theorem C06_reject_undefined_name : forall f s,
   ctype s = TT_NAME -> get_symbol s (ctext s) = None -> st_get (p_globals s) (t_text (cur s)) = None ->
